@@ -132,6 +132,9 @@ type Session struct {
 	// OnOpenAcquire: the network on-open hook acquires the default privilege level (as the
 	// platform definitions do)
 	OnOpenAcquire bool `json:"on_open_acquire,omitempty"`
+	// OtherAfterOpen: a second, independent connection of the same process that is opened right
+	// after this one's Open returned and before its first operation (and closed at the end)
+	OtherAfterOpen *Session `json:"other_after_open,omitempty"`
 	// PlatLogin: the network driver is built from a platform definition whose network-on-open
 	// sequence writes this login secret (redacted) to a gate in front of the device, presses
 	// return, acquires the default level and sends a command
@@ -220,6 +223,7 @@ type SessionRun struct {
 	Tr      *simnet.T
 	Out     kernel.Outcome
 	OpenRec OpRec
+	Other   *SessionRun // the second connection (OtherAfterOpen)
 	Recs    []OpRec
 	Logs    *LogSink
 	G       *generic.Driver
@@ -342,6 +346,21 @@ func opOpts(sc *Session, op *OpSpec) []util.Option {
 // StartSession builds driver, device and transport and starts the workload goroutine; the caller
 // runs the controller (so properties can choose deadline/settle and install observers).
 func StartSession(env *Env, sc *Session) (*SessionRun, <-chan struct{}) {
+	sr, err := buildSession(env, sc)
+	if err != nil {
+		env.Res.HarnessError = "NewDriver: " + err.Error()
+		done := make(chan struct{})
+		close(done)
+
+		return sr, done
+	}
+	done := env.Go("user", func() { sr.workload(env) })
+
+	return sr, done
+}
+
+// buildSession builds device, transport and driver of one session without starting anything.
+func buildSession(env *Env, sc *Session) (*SessionRun, error) {
 	sr := &SessionRun{Sc: sc}
 	sr.Dev = buildDevice(&sc.Dev)
 	sr.Tr = simnet.New(env.K, sr.Dev, sc.Net, sc.F)
@@ -490,16 +509,7 @@ func StartSession(env *Env, sc *Session) (*SessionRun, <-chan struct{}) {
 	default:
 		sr.G, err = generic.NewDriver("sim", opts...)
 	}
-	if err != nil {
-		env.Res.HarnessError = "NewDriver: " + err.Error()
-		done := make(chan struct{})
-		close(done)
-
-		return sr, done
-	}
-	done := env.Go("user", func() { sr.workload(env) })
-
-	return sr, done
+	return sr, err
 }
 
 func (sr *SessionRun) snap(rec *OpRec) {
@@ -529,6 +539,28 @@ func (sr *SessionRun) workload(env *Env) {
 	sr.snap(&sr.OpenRec)
 	if !ok || sr.OpenRec.Err != nil {
 		return
+	}
+	if sc.OtherAfterOpen != nil {
+		if o2, err := buildSession(env, sc.OtherAfterOpen); err == nil {
+			sr.Other = o2
+			env.Call("Open(other connection)", func() {
+				if o2.N != nil {
+					o2.OpenRec.Err = o2.N.Open()
+				} else {
+					o2.OpenRec.Err = o2.G.Open()
+				}
+			})
+			defer env.Call("Close(other connection)", func() {
+				if o2.OpenRec.Err != nil {
+					return
+				}
+				if o2.N != nil {
+					_ = o2.N.Close()
+				} else {
+					_ = o2.G.Close()
+				}
+			})
+		}
 	}
 	errs := 0
 	recovered := false
@@ -738,6 +770,9 @@ func (sr *SessionRun) do(env *Env, op *OpSpec, o []util.Option, rec *OpRec) {
 // full timeout once per step, plus idles.
 func (sc *Session) Deadline() time.Duration {
 	d := 2*sc.connTimeout() + time.Second
+	if sc.OtherAfterOpen != nil {
+		d += 2*sc.OtherAfterOpen.connTimeout() + time.Second
+	}
 	for i := range sc.Ops {
 		op := &sc.Ops[i]
 		t := sc.EffTimeout(op)
